@@ -1,5 +1,5 @@
 mod end;
-mod forin;
+pub(crate) mod forin;
 mod function;
 mod goto;
 mod ifelse;
